@@ -1,6 +1,7 @@
 #![allow(dead_code)]
 //! verif-harness: runs the real aiken/uplc code next to the Lean models.
 //!   verif-harness <sub-command> [--seed N] [--tier quick|thorough] [--out file] [--replay file]
+mod c11;
 mod c15;
 mod driver;
 mod prng;
@@ -41,7 +42,8 @@ fn main() {
                 ctx.replay = Some(args[i + 1].clone());
                 i += 1;
             }
-            other => panic!("unknown argument {other}"),
+            // anything else belongs to the sub-command (it parses std::env::args itself)
+            _ => {}
         }
         i += 1;
     }
@@ -49,6 +51,7 @@ fn main() {
     std::panic::set_hook(Box::new(|_| {}));
     let rep = match sub.as_str() {
         "c15-names" => c15::names(&ctx),
+        "c11-debruijn" => c11::run(&ctx),
         other => {
             eprintln!("unknown sub-command {other}");
             std::process::exit(2);
